@@ -78,6 +78,18 @@ pub(crate) fn remove_all<Fd: AsFd>(dirfd: Fd, name: &Path) -> Result<(), Error> 
         })?;
     }
 
+    // "." and ".." cannot be removed through their parent directory, and
+    // opening them below would make us recurse into (and empty) a directory
+    // other than the entry named by the caller -- for ".." that is the parent
+    // of dirfd, which may well be outside of the root. Refuse them like
+    // rmdir(2) and rm(1) do.
+    if matches!(name.as_os_str().as_bytes(), b"." | b"..") {
+        Err(ErrorImpl::InvalidArgument {
+            name: "path".into(),
+            description: "cannot remove '.' or '..'".into(),
+        })?;
+    }
+
     // Fast path -- try to remove it with unlink/rmdir.
     if remove_inode(dirfd, name).ignore_enoent().is_ok() {
         return Ok(());
